@@ -137,10 +137,17 @@ def oracle(ops, outs):
     return None
 
 
+FAR_SECS = [0, 1, 5, 2**31 - 2, 2**31 - 1, 2**31, 2**31 + 16, 2**32 - 1, 2**32, 2**32 + 7, 3 * 2**32 + 1, 2**40, 2**62]
+
+
 def ts(rng, span):
     k = rng.random()
     if k < 0.1:
         return (0, 0)
+    if span == "far":
+        # expiries decades apart ("never" timers next to ordinary ones): the ordering must not depend on the distance
+        sec = rng.choice(FAR_SECS) + rng.choice([0, 0, 1, 3])
+        return (sec, rng.choice([0, 1, 999999999, rng.randrange(0, 10**9)]))
     sec = rng.randrange(0, span)
     nsec = rng.choice([0, 1, 999999999, rng.randrange(0, 10**9)])
     return (sec, nsec)
@@ -197,7 +204,7 @@ def gen_random(rng, n_t, n_ops, span):
         else:
             ops.append("dump")
     ops.append("dump")
-    ops.append(f"run {span+1} 0")
+    ops.append(f"run {2**62 + 10 if span == 'far' else span + 1} 0")
     ops.append("dump")
     return ops
 
@@ -208,6 +215,8 @@ def gen_cases(tier, seed):
     for i in range(30 if tier == "quick" else 200):
         n_t = rng.choice([3, 6, 12, 40, 150, 300])
         yield (f"rand-{i}", gen_random(rng, n_t, rng.choice([60, 200, 600]), rng.choice([5, 50, 1000])), None)
+    for i in range(10 if tier == "quick" else 80):
+        yield (f"far-{i}", gen_random(rng, rng.choice([3, 6, 12, 40]), rng.choice([60, 200]), "far"), None)
     yield ("sweep-16384", gen_sweep(rng, 16380, 16390, 4), "boundary-16384")
     if tier == "thorough":
         yield ("sweep-40000", gen_sweep(rng, 16000, 40000, 4), "population-40000")
